@@ -297,7 +297,7 @@ func c03(r *h.Result, rng *h.Rng, tier string, replay string) error {
 		return c03Probe()
 	}
 	c03Setup()
-	r.Rule = "per protocol: documents of 0–6 streams × 0–30 entries (thorough: up to 12 × 300, some 3000), label sets drawn from a per-document pool " +
+	r.Rule = "per protocol: documents of 0–6 streams × 0–30 entries (thorough: 5000 documents per protocol, up to 12 × 300, every 100th up to 3 × 3000), label sets drawn from a per-document pool " +
 		"(shared identities, names needing sanitising, values around the 100-byte cut, __ttl_days__ labels, 10% with a TTL header), " +
 		"timestamps on three days incl. midnight ±1 ns, empty streams; JSON with shuffled member order, both Loki layouts, integer and RFC 3339 " +
 		"timestamps, optional third element; plus per protocol documents crossing 1 MiB (Loki: byte count exactly at the threshold and one above) " +
@@ -335,7 +335,7 @@ func c03(r *h.Result, rng *h.Rng, tier string, replay string) error {
 	bigRounds := 1
 	switch tier {
 	case "thorough", "search":
-		n, maxS, maxE = 3000, 12, 300
+		n, maxS, maxE = 5000, 12, 300
 		bigRounds = 6
 	}
 	for _, proto := range c03Protos {
